@@ -156,6 +156,36 @@ func RunFamily(c *core.Ctx, family string, bound, shardsPerProg, maxExecsPerJob 
 	}
 }
 
+// RunFamilyIter is iterative context bounding under a time budget: first every schedule with at
+// most lo preemptions of every program, without an execution cap (the bound that is COMPLETED),
+// then the schedules with at most hi preemptions as far as the caps and the time budget allow.
+// The evidence says which bound was completed for every program and how far the deeper pass got.
+func RunFamilyIter(c *core.Ctx, family string, lo, hi, shardsPerProg, maxExecsPerJob int) {
+	RunFamily(c, family, lo, shardsPerProg, 0)
+	if c.Cov["exhaustive"] == false || hi <= lo {
+		return // not even the lower bound fitted; the evidence already says so
+	}
+	if c.TimeUp() {
+		c.Cov["deeper_bound"] = fmt.Sprintf("bound %d not started: time budget used by bound %d", hi, lo)
+		return
+	}
+	delete(c.Cov, "exhaustive")
+	keep := map[string]interface{}{}
+	for _, k := range []string{"programs", "programs_with_single_outcome", "distinct_outcomes_total"} {
+		keep[k] = c.Cov[k]
+	}
+	c.Cov["evaluations_at_completed_bound"] = c.Cov["evaluations"]
+	RunFamily(c, family, hi, shardsPerProg, maxExecsPerJob)
+	for k, v := range keep {
+		c.Cov[k] = v // per-program figures are those of the completed pass
+	}
+	c.Cov["passes"] = fmt.Sprintf("evaluations / transitions / states add the bound-%d pass and the bound-%d pass (which explores the bound-%d schedules again)", lo, hi, lo)
+	if c.Cov["exhaustive"] == false {
+		c.Cov["deeper_bound"] = fmt.Sprintf("bound %d attempted after bound %d was completed for every program: %v", hi, lo, c.Cov["capped"])
+		c.Cov["preemption_bound_completed"] = lo
+	}
+}
+
 func init() {
 	core.Replayers = append(core.Replayers, func(id string, raw json.RawMessage) (bool, []string) {
 		var r struct {
